@@ -356,7 +356,9 @@ class Precondition:
         :param old_to_new_param_names:
         :return:
         """
-        for _, condition in self:
+        # iterating over the operands themselves (and not over the flattened conditions) so that nested
+        # conditions rename their own (in)equality conditions as well.
+        for condition in self.operands:
             if isinstance(condition, Predicate):
                 condition.change_signature(old_to_new_param_names)
 
@@ -412,6 +414,16 @@ class UniversalPrecondition(Precondition):
 
     def __hash__(self) -> int:
         return hash(str(self))
+
+    def change_signature(self, old_to_new_param_names: Dict[str, str]) -> None:
+        """Change the signature of the universal precondition including its quantified parameter.
+
+        :param old_to_new_param_names: the mapping between the old and the new parameter names.
+        """
+        super().change_signature(old_to_new_param_names)
+        self.quantified_parameter = old_to_new_param_names.get(
+            self.quantified_parameter, self.quantified_parameter
+        )
 
     def __eq__(self, other: "UniversalPrecondition") -> bool:
         return (
